@@ -636,6 +636,18 @@ class Models:
         I.emit(st, fr, {'k': 'discard_err', 'val': I.variant_fields(st, v, 1, 1)[0], 'how': np})
         return self.finish(I, st, fr, t, cont, args[1] if len(args) > 1 else SYM('default', np))
 
+    def m_default(self, I, st, fr, t, c, np, args, cont):
+        """std::default::Default::default|<std::option::Option as std::default::Default>::default|<bool as std::default::Default>::default"""
+        ty = I.T[I.resolve_ty(fr, t['dest_ty'])] if cont[0] == 'mir' and t.get('dest_ty') is not None else None
+        if ty is not None:
+            if ty.get('adt') == 'std::option::Option':
+                return self.finish(I, st, fr, t, cont, NONE())
+            if ty['k'] in ('bool', 'int', 'uint'):
+                return self.finish(I, st, fr, t, cont, INT(0))
+            if ty['k'] == 'tuple' and not ty.get('elems'):
+                return self.finish(I, st, fr, t, cont, ZST())
+        return self.generic(I, st, fr, t, np, args, cont, c)
+
     def m_option_flatten(self, I, st, fr, t, c, np, args, cont):
         """std::option::Option::flatten"""
         v = args[0]
